@@ -369,9 +369,39 @@ def _exh_cases(tier, lo, hi):
         yield {"kind": "bin", "W": A.astype(float)}
 
 
+_WSP = {}
+
+
+def _wspace(tier):
+    if tier not in _WSP:
+        specs = [(3, True), (4, False)] if tier == "quick" else [(3, True), (4, False), (5, False)]
+        vals = (1, 2, 3) if tier == "quick" else (1, 2)
+        if tier == "thorough":
+            _WSP[tier] = [gen.WeightedSpace([(3, True), (4, False)], (1, 2, 3)), gen.WeightedSpace([(4, True)], (1, 2)), gen.WeightedSpace([(5, False)], (1, 2))]
+        else:
+            _WSP[tier] = [gen.WeightedSpace(specs, vals)]
+    return _WSP[tier]
+
+
+def _w_total(tier):
+    return sum(sp.total for sp in _wspace(tier))
+
+
+def _w_cases(tier, lo, hi):
+    for k in range(lo, hi):
+        for sp in _wspace(tier):
+            if k < sp.total:
+                n, d, W = sp.at(k)
+                yield {"kind": "len", "W": W}
+                break
+            k -= sp.total
+
+
 def units(tier):
     big = 12 if tier == "quick" else 30
     return [
+        Unit("exhaustive-lengths", check, count=_w_total, cases=_w_cases, shards=(16, 64),
+             space="; ".join(sp.describe() for sp in _wspace(tier)) + " used as length matrices (every tie pattern on these sizes)"),
         Unit("exhaustive-binary", check, count=lambda t: _space(t).total, cases=_exh_cases,
              shards=(16, 64), space=_space(tier).describe() + " as 0/1 float64"),
         Unit("random-binary", check, strategy=lambda: cases(big, ["bin"]), examples=(600, 8000), shards=(4, 16)),
